@@ -57,6 +57,10 @@ func (cl Serializer) DecodeDnsResponseWithParams(msg *dns.Msg, downstream enc.En
 	data := util.UnwrapDnsResponse(msg, cl.Domain)
 	for _, c := range Commands {
 		if c.IsOfType(data) {
+			if c.NewResponse == nil {
+				// Reserved command without a response type
+				break
+			}
 			req := c.NewResponse()
 			err := req.Decode(downstream, data)
 			return req, err
@@ -152,6 +156,10 @@ func (cl Serializer) EncodeDnsRequestWithParams(req Request, qt dnsmessage.Type,
 func (cl Serializer) DecodeDnsRequest(request []byte) (Request, error) {
 	for _, c := range Commands {
 		if c.IsOfType(request) {
+			if c.NewRequest == nil {
+				// Reserved command (login, multi-query, error) without a request type
+				break
+			}
 			req := c.NewRequest()
 			err := req.Decode(cl.Upstream.Encoder, request)
 			if err != nil {
